@@ -287,6 +287,37 @@ def run(ctx, rec):
                 rec.violation("ill-formed-series-pair-accepted", f"Series / MosStack with {what}, nser={n}, was built and exported", case={"gen": "Series", "probe": what, "n": n})
             except Exception:
                 pass
+    # the generated module's ports are COPIES: what is written on them afterwards stays theirs, and what the unit's ports carried
+    # at the time (descriptions, properties) is carried over - for scalar and bundle-valued ports
+    for gname, gen in (("Wrapper", lambda u: Wrapper(u)), ("Series", lambda u: Series(unit=u, conns=("a", "b"), nser=2)), ("Series-1", lambda u: Series(unit=u, conns=("a", "b"), nser=1))):
+        rec.count("probe.port-copies")
+        u = h.Module(name=f"CpUnit{next(build._counter)}")
+        u.add(h.Input(desc="in"), name="a")
+        u.add(h.Output(), name="b")
+        u.add(h.Diff(port=True, desc="bundle port"), name="bb")
+        u.a.props.set("layer", "met1")
+        u.bb.props.set("k", 1)
+        u.add(h.R(r=1)(p=u.a, n=u.b), name="r")
+        u.add(h.R(r=1)(p=u.bb.p, n=u.bb.n), name="r2")
+        case = {"gen": gname, "probe": "port-copies"}
+        try:
+            g1 = gen(u)
+            g1.name = f"{g1.name}_{next(build._counter)}"
+            got = {"a.desc": g1.a.desc, "a.layer": g1.a.props.get("layer"), "bb.desc": g1.bb.desc, "bb.k": g1.bb.props.get("k")}
+            want = {"a.desc": "in", "a.layer": "met1", "bb.desc": "bundle port", "bb.k": 1}
+            if got != want:
+                rec.violation("port-copy-loses-metadata", f"{gname}: the copied ports carry {got}, the unit's ports {want}", case=case)
+            g1.a.props.set("layer", "EDITED")
+            g1.bb.props.set("k", "EDITED")
+            g2 = gen(u)
+            leaked = {"unit a": u.a.props.get("layer"), "unit bb": u.bb.props.get("k")}
+            if g2 is not g1:  # (Series is memoised: the same call gives the same module)
+                leaked.update({"later module a": g2.a.props.get("layer"), "later module bb": g2.bb.props.get("k")})
+            if "EDITED" in leaked.values():
+                rec.violation("port-copy-shares-state", f"{gname}: a property set on a port of the generated module shows up on {[k for k, v in leaked.items() if v == 'EDITED']}",
+                              case=case)
+        except Exception as e:
+            rec.violation(f"valid-unit-rejected:{type(e).__name__}", f"{gname} over a unit with described / annotated ports raised: {str(e)[:100]}", case=case)
     rec.exhaustive = True
     rec.extra["N"] = N
 
